@@ -1,1 +1,4 @@
-// independent oracles
+//! Independent oracles: written from the specifications, sharing no code with the crates under test.
+pub mod b64;
+pub mod psl;
+pub mod punycode;
